@@ -218,8 +218,17 @@ class RunProcess(multiprocessing.Process):
 
 
 def make_process(cfg, args):
-    if cfg.get("subclass"):
+    how = cfg.get("create") or ("subclass" if cfg.get("subclass") else "target")
+    if how == "subclass":
         return RunProcess(args)
+    if how == "context":
+        # a context's own Process class (what multiprocessing.Pool and friends use); not a
+        # subclass of multiprocessing.Process
+        return multiprocessing.get_context(cfg["method"]).Process(target=child_main, args=args)
+    if how == "lazy":
+        from . import c14_lazy
+
+        return multiprocessing.Process(target=c14_lazy.lazy_main, args=args)
     return multiprocessing.Process(target=child_main, args=args)
 
 
